@@ -27,6 +27,16 @@ WildT == {R}
 \* abstract writes; the harness turns them into raft commands (register / deregister / config entry /
 \* ACL token set) applied through fsm.FSM.Apply
 Put(id, name, dest) == [op |-> "put", kind |-> "svc", id |-> id, name |-> name, dest |-> dest]
+\* the same register request also changes the NODE (its address): one transaction that touches the node row and
+\* the service row (catalog_events.go rebuilds every instance of a changed node and must still deregister an
+\* instance from its old service name / old connect destination)
+PutN(id, name, dest, addr) == [op |-> "put", kind |-> "svc", id |-> id, name |-> name, dest |-> dest, addr |-> addr]
+\* ONE transaction (structs.TxnRequest: node + three sidecar proxies of `dest` on that node, service names
+\* px, py, pz): several events for one subject in one batch
+Multi(dest) == [op |-> "multi", kind |-> "svc", id |-> "m", dest |-> dest]
+DelMulti == [op |-> "delnode", kind |-> "svc", id |-> "m", node |-> "nm"]
+MultiIds == <<"m1", "m2", "m3">>
+MultiNames == <<"px", "py", "pz">>
 Del(id) == [op |-> "del", kind |-> "svc", id |-> id]
 PutCE(id) == [op |-> "put", kind |-> "ce", id |-> id]
 DelCE(id) == [op |-> "del", kind |-> "ce", id |-> id]
@@ -39,6 +49,11 @@ WritesFor ==
     [] Profile = "one"    -> {Put("a", "web", ""), Put("b", "web", ""), Del("a")}
     [] Profile = "conn"   -> {Put("a", "web", ""), Put("p", "px", "web"), Del("p")}
     [] Profile = "wild"   -> {PutCE("web"), PutCE("db"), DelCE("web")}
+    [] Profile = "ren"    -> {PutN("a", "web", "", "1"), PutN("a", "db", "", "2")}
+    [] Profile = "rep"    -> {PutN("p", "px", "web", "1"), PutN("p", "px", "db", "2")}
+    [] Profile = "renrep" -> {PutN("a", "web", "", "1"), PutN("a", "db", "", "2"), PutN("p", "px", "web", "1"), PutN("p", "px", "db", "2")}
+    [] Profile = "aclf"   -> {Multi("web"), DelMulti}
+    [] Profile = "aclf1"  -> {Multi("web")}
 SubjectsFor ==
   CASE Profile = "health" -> {Key(H, "web"), Key(H, "db")}
     [] Profile = "mixed"  -> {Key(H, "web"), Key(C, "web"), Key(R, "web"), Key(R, WILD)}
@@ -46,37 +61,69 @@ SubjectsFor ==
     [] Profile = "one"    -> {Key(H, "web")}
     [] Profile = "conn"   -> {Key(C, "web"), Key(H, "px")}
     [] Profile = "wild"   -> {Key(R, "web"), Key(R, WILD)}
+    [] Profile = "ren"    -> {Key(H, "web"), Key(H, "db")}
+    [] Profile = "rep"    -> {Key(C, "web"), Key(C, "db")}
+    [] Profile = "renrep" -> {Key(H, "web"), Key(H, "db"), Key(C, "web"), Key(C, "db")}
+    [] Profile = "aclf"   -> {Key(C, "web")}
+    [] Profile = "aclf1"  -> {Key(C, "web")}
 Tok(c) == IF c = 1 THEN "t1" ELSE "t2"
+\* what the tokens may not read: in profile "aclf" subscriber 2 is restricted (service "px" denied), so it sees
+\* a non-empty, non-prefix part of a Multi batch
+DenyFor == IF Profile \in {"aclf", "aclf1"} THEN [t2 |-> {"px"}] ELSE <<>>
 
 KeysOf(w) ==
   IF w.kind = "svc" THEN {Key(H, w.name)} \cup (IF w.dest # "" THEN {Key(C, w.dest)} ELSE {})
   ELSE IF w.kind = "ce" THEN {Key(R, w.id)} ELSE {}
-AllKeys == UNION {IF w.op = "put" THEN KeysOf(w) ELSE {} : w \in WritesFor}
+MultiKeys(w, j) == {Key(H, MultiNames[j]), Key(C, w.dest)}
+AllKeys == UNION {IF w.op = "put" THEN KeysOf(w) ELSE IF w.op = "multi" THEN UNION {MultiKeys(w, j) : j \in 1..3} ELSE {} : w \in WritesFor}
 RowId(w) == w.id      \* service ids and config entry names are disjoint
 
 ---------------------------------------------------------------------------
-(* abstract store: rows [id, keys, v] (v = raft index of the last write of the row), kix[k] = raft
-   index of the last event filed under key k *)
+(* abstract store: rows [id, keys, v, ak] (v = raft index of the last write of the row, ak = the name its ACL
+   check is made on), kix[k] = raft index of the last event filed under key k *)
 EmptyStore == [rows |-> {}, kix |-> [k \in AllKeys |-> 0]]
 
-Ev(k, op, id, v) == [topic |-> k.topic, subj |-> k.subj, op |-> op, id |-> id, v |-> v]
+Ev(k, op, id, v, ak) == [topic |-> k.topic, subj |-> k.subj, op |-> op, id |-> id, v |-> v, ak |-> ak]
+AkOf(w) == IF w.kind = "svc" THEN w.name ELSE w.id
+
+\* events of replacing the rows `old` (all of one id) by a row with keys newkeys, version i
+RowEvs(old, id, newkeys, i, ak) ==
+  LET oldkeys == UNION {r.keys : r \in old}
+      oldak == IF old = {} THEN ak ELSE (CHOOSE r \in old : TRUE).ak
+      gone == oldkeys \ newkeys
+  IN [j \in 1..Cardinality(gone) |-> Ev(SetToSeq(gone)[j], "dereg", id, 0, oldak)]
+     \o [j \in 1..Cardinality(newkeys) |-> Ev(SetToSeq(newkeys)[j], "reg", id, i, ak)]
+RECURSIVE Flatten(_)
+Flatten(ss) == IF ss = <<>> THEN <<>> ELSE Head(ss) \o Flatten(Tail(ss))
+
+Touch(store, i, keys) == [k \in AllKeys |-> IF k \in keys THEN i ELSE store.kix[k]]
 
 WriteOp(store, i, w) ==
   IF w.op = "acl" THEN [store |-> store, evs |-> <<>>, toks |-> {w.tok}]
+  ELSE IF w.op = "multi" THEN
+    LET old(j) == {r \in store.rows : r.id = MultiIds[j]}
+        evs == Flatten([j \in 1..3 |-> RowEvs(old(j), MultiIds[j], MultiKeys(w, j), i, MultiNames[j])])
+        rows == (store.rows \ UNION {old(j) : j \in 1..3})
+                \cup {[id |-> MultiIds[j], keys |-> MultiKeys(w, j), v |-> i, ak |-> MultiNames[j]] : j \in 1..3}
+    IN [store |-> [rows |-> rows, kix |-> Touch(store, i, {[topic |-> e.topic, subj |-> e.subj] : e \in ToSet(evs)})],
+        evs |-> evs, toks |-> {}]
+  ELSE IF w.op = "delnode" THEN
+    LET old(j) == {r \in store.rows : r.id = MultiIds[j]}
+        evs == Flatten([j \in 1..3 |-> RowEvs(old(j), MultiIds[j], {}, i, MultiNames[j])])
+    IN [store |-> [rows |-> store.rows \ UNION {old(j) : j \in 1..3},
+                   kix |-> Touch(store, i, {[topic |-> e.topic, subj |-> e.subj] : e \in ToSet(evs)})],
+        evs |-> evs, toks |-> {}]
   ELSE
   LET id == RowId(w)
       old == {r \in store.rows : r.id = id}
-      oldkeys == UNION {r.keys : r \in old}
       newkeys == IF w.op = "put" THEN KeysOf(w) ELSE {}
-      gone == oldkeys \ newkeys
-      evs == [j \in 1..Cardinality(gone) |-> Ev(SetToSeq(gone)[j], "dereg", id, 0)]
-             \o [j \in 1..Cardinality(newkeys) |-> Ev(SetToSeq(newkeys)[j], "reg", id, i)]
-      rows == (store.rows \ old) \cup (IF w.op = "put" THEN {[id |-> id, keys |-> newkeys, v |-> i]} ELSE {})
-  IN [store |-> [rows |-> rows, kix |-> [k \in AllKeys |-> IF k \in gone \cup newkeys THEN i ELSE store.kix[k]]],
+      evs == RowEvs(old, id, newkeys, i, AkOf(w))
+      rows == (store.rows \ old) \cup (IF w.op = "put" THEN {[id |-> id, keys |-> newkeys, v |-> i, ak |-> AkOf(w)]} ELSE {})
+  IN [store |-> [rows |-> rows, kix |-> Touch(store, i, {[topic |-> e.topic, subj |-> e.subj] : e \in ToSet(evs)})],
       evs |-> evs, toks |-> {}]
 
 KeyMatch(ts, k) == k.topic = ts.topic /\ (k.subj = ts.subj \/ (ts.subj = WILD /\ ts.topic \in WildT))
-RowSet(store, ts) == {[id |-> r.id, v |-> r.v] : r \in {r \in store.rows : \E k \in r.keys : KeyMatch(ts, k)}}
+RowSet(store, ts) == {[id |-> r.id, v |-> r.v, ak |-> r.ak] : r \in {r \in store.rows : \E k \in r.keys : KeyMatch(ts, k)}}
 MaxOf(S) == IF S = {} THEN 0 ELSE CHOOSE m \in S : \A n \in S : n <= m
 \* index of the direct query: the subject's own index, or the store-wide one if it has none
 Qidx(store, ts, gidx) == LET m == MaxOf({store.kix[k] : k \in {k \in AllKeys : KeyMatch(ts, k)}}) IN IF m = 0 THEN gidx ELSE m
@@ -93,12 +140,13 @@ Init ==
        /\ st = [idx |-> 1, store |-> EmptyStore, sh |-> [i \in {0, 1} |-> EmptyStore], nc |-> 0, nr |-> 0,
                 ns |-> [c \in Clients |-> 0], mustclose |-> {},
                 queue |-> <<>>, tbs |-> {}, cache |-> {}, cl |-> [c \in Clients |-> NoClient],
-                ttl |-> ttl, ridx |-> 0, wild |-> WildT]
-       /\ hist = <<[t |-> "cfg", ttl |-> ttl, nc |-> NC]>>
+                ttl |-> ttl, ridx |-> 0, wild |-> WildT, deny |-> DenyFor]
+       /\ hist = <<[t |-> "cfg", ttl |-> ttl, nc |-> NC, deny |-> DenyFor]>>
 
 Commit(w) ==
   /\ st.nc < MaxCommits
   /\ (w.op = "del" => \E r \in st.store.rows : r.id = RowId(w))
+  /\ (w.op = "delnode" => \E r \in st.store.rows : r.id = MultiIds[1])
   /\ LET i == st.idx + 1
          r == WriteOp(st.store, i, w)
      IN /\ st' = EnqueueOp([st EXCEPT !.idx = i, !.store = r.store, !.sh = @ @@ (i :> r.store), !.nc = @ + 1],
@@ -164,9 +212,10 @@ TsOf(x) == Key(x.topic, x.subj)
 RowsAt(i, x) == RowSet(st.sh[IF i > st.idx THEN st.idx ELSE i], TsOf(x))
 
 \* after each delivery the view equals the direct query at the delivered index
-InvViewExact == \A c \in Clients : st.cl[c].state = "open" => ViewExact(st.cl[c], {RowsAt(st.cl[c].vidx, st.cl[c])})
+InvViewExact == \A c \in Clients : st.cl[c].state = "open"
+                    => ViewExact(st.cl[c], {ReadableRows(st, st.cl[c].tok, RowsAt(st.cl[c].vidx, st.cl[c]))})
 \* no committed change is skipped
-InvNoSkip == \A c \in Clients : NoSkip(st, st.cl[c], RowSet(st.store, TsOf(st.cl[c])))
+InvNoSkip == \A c \in Clients : NoSkip(st, st.cl[c], ReadableRows(st, st.cl[c].tok, RowSet(st.store, TsOf(st.cl[c]))))
 \* delivered indexes never decrease within a subscription
 PropIdxMonotone ==
   [][\A c \in Clients : (st.cl[c].state = "open" /\ st'.cl[c].state = "open" /\ st.ns[c] = st'.ns[c])
